@@ -334,7 +334,39 @@ def range_checked(w, sel, edges, evs, ci_):
             if whole is not None and f'len(self.{edges})' in ast.unparse(whole).replace(' ', '') and range_guard_ok(whole, edges, accept=False):
                 return True
         if (e.kind == 'pcall' and e.name in ('reserve_put', 'reserve_get', 'can_put')) or e.kind == 'spawn':
-            return False
+            break
+    # several separate guards (`if i < 0: raise` ... `if i >= len(edges): raise`): the conditions the path has passed, taken together, admit exactly 0..n-1
+    from .common import eval_guard, NotEvaluable
+    n = 3
+    conds = []
+    for e in evs[ci_ + 1:]:
+        if (e.kind == 'pcall' and e.name in ('reserve_put', 'reserve_get', 'can_put')) or e.kind == 'spawn':
+            break
+        if e.kind == 'cond' and not e.d.get('synthetic') and e.d.get('node') is not None:
+            conds.append((e.d['node'], bool(e.polarity)))
+
+    def admits(v):
+        def b(t):
+            if t.replace(' ', '') == f'len(self.{edges})':
+                return n
+            if t.isidentifier() and t not in ('int', 'float', 'str', 'bool', 'type', 'self', 'None', 'True', 'False'):
+                return v
+            raise KeyError(t)
+        used = 0
+        for node, pol in conds:
+            try:
+                if eval_guard(node, b) != pol:
+                    return False, used
+                used += 1
+            except NotEvaluable:
+                continue
+        return True, used
+    try:
+        res = {v: admits(v) for v in (-1, 0, n - 1, n, n + 5)}
+        if all(u > 0 for _, u in res.values()) and [v for v, (ok_, _) in res.items() if ok_] == [0, n - 1]:
+            return True
+    except Exception:       # noqa: BLE001
+        pass
     return False
 
 
@@ -413,8 +445,11 @@ def check_wiring(p, w, r):
         args = [ast.unparse(a) for a in c.args]
         ok = len(args) >= 4 and args[0] == f'self.{attr}' and args[1] == 'self' and args[3].strip('\'"') == tag
         # constant index validated against the same edge list
-        asserts = [n for n in scope_nodes() if isinstance(n, ast.Assert) and f'self.{attr}' in ast.unparse(n.test)]
-        ok2 = any(is_range_test(a.test, edges) for a in asserts)
+        # judged by what reset() does to representative configurations (any spelling: chained comparison, two conjuncts, raise instead of assert)
+        from .common import abstract_rejects
+        E3 = ['e0', 'e1', 'e2']
+        ok2 = all(abstract_rejects(p, w.ci, fi, {f'self.{attr}': i, f'self.{edges}': E3}, must=False) for i in (-1, 3, 8)) and \
+            not any(abstract_rejects(p, w.ci, fi, {f'self.{attr}': i, f'self.{edges}': E3}, must=True) for i in (0, 1, 2))
         if ok and ok2:
             r.ok('C15.R7', key, f'get_edge_selector(self.{attr}, self, env, "{tag}"); constant index asserted within len(self.{edges})', src(fi.module), fi.node.lineno)
         elif not ok:
@@ -458,13 +493,48 @@ def check_generators(p, r):
         r.fail('C15.R7', key, f'strategy table {table} / rejection of unknown names / edge_type normalisation changed', src(UTILS), ges.node.lineno)
 
 
+def names_edge_list(expr, param='edge_type') -> bool:
+    """the expression builds the attribute name `<edge_type>_edges` from the parameter: f-string, str.format, % or concatenation"""
+    T = '\x00T\x00'
+
+    def ev(e):
+        if isinstance(e, ast.Constant) and isinstance(e.value, str):
+            return e.value
+        if isinstance(e, ast.Name) and e.id == param:
+            return T
+        if isinstance(e, ast.JoinedStr):
+            out = ''
+            for v in e.values:
+                if isinstance(v, ast.Constant):
+                    out += str(v.value)
+                elif isinstance(v, ast.FormattedValue) and v.format_spec is None and v.conversion in (-1, 115):
+                    out += ev(v.value)
+                else:
+                    raise ValueError
+            return out
+        if isinstance(e, ast.BinOp) and isinstance(e.op, ast.Add):
+            return ev(e.left) + ev(e.right)
+        if isinstance(e, ast.BinOp) and isinstance(e.op, ast.Mod) and isinstance(e.left, ast.Constant) and isinstance(e.left.value, str):
+            args = e.right.elts if isinstance(e.right, ast.Tuple) else [e.right]
+            return e.left.value % tuple(ev(a) for a in args)
+        if isinstance(e, ast.Call) and isinstance(e.func, ast.Attribute) and e.func.attr == 'format' and isinstance(e.func.value, ast.Constant) \
+                and isinstance(e.func.value.value, str):
+            return e.func.value.value.format(*[ev(a) for a in e.args], **{k.arg: ev(k.value) for k in e.keywords})
+        if isinstance(e, ast.Call) and isinstance(e.func, ast.Name) and e.func.id == 'str' and len(e.args) == 1:
+            return ev(e.args[0])
+        raise ValueError
+    try:
+        return ev(expr) == T + '_edges'
+    except Exception:       # noqa: BLE001
+        return False
+
+
 def edges_binding(fn):
     """name bound to getattr(node, f"{edge_type}_edges") inside the generator loop"""
     for n in walk_no_nested(fn.node):
         if isinstance(n, ast.Assign) and isinstance(n.value, ast.Call) and isinstance(n.value.func, ast.Name) and n.value.func.id == 'getattr':
             a = n.value.args
-            if len(a) >= 2 and isinstance(a[0], ast.Name) and a[0].id == fn.node.args.args[0].arg and isinstance(a[1], ast.JoinedStr) \
-                    and ast.unparse(a[1]) in ("f'{edge_type}_edges'", 'f"{edge_type}_edges"'):
+            if len(a) >= 2 and isinstance(a[0], ast.Name) and a[0].id == fn.node.args.args[0].arg and names_edge_list(a[1], fn.node.args.args[2].arg if len(fn.node.args.args) > 2 else 'edge_type'):
                 return n.targets[0].id
     return None
 
@@ -508,7 +578,7 @@ def edge_list_texts(fn):
     node_par = fn.node.args.args[0].arg
     for n in walk_no_nested(fn.node):
         if isinstance(n, ast.Call) and isinstance(n.func, ast.Name) and n.func.id == 'getattr' and len(n.args) == 2 and isinstance(n.args[0], ast.Name) \
-                and n.args[0].id == node_par and isinstance(n.args[1], ast.JoinedStr) and ast.unparse(n.args[1]) in ("f'{edge_type}_edges'", 'f"{edge_type}_edges"'):
+                and n.args[0].id == node_par and names_edge_list(n.args[1], fn.node.args.args[2].arg if len(fn.node.args.args) > 2 else 'edge_type'):
             out.add(ast.unparse(n).replace(' ', ''))
     return out
 
